@@ -37,7 +37,7 @@ TECHNIQUE = ("Hypothesis-generated directory trees x ignore-pattern sets x recur
 RULE = (
     "case = 3-16 files in a tree of <=6 directories (depth <=4) whose names are drawn from ordinary / hidden / "
     "always-excluded / look-alike alphabets, 0-4 ignore patterns of the documented forms built from names of the tree, "
-    "carrier (.thailintignore | config ignore:), recursive flag, targets (root | sub-directory | explicit files | "
+    "carrier (.thailintignore | config ignore: | both, patterns shared out), recursive flag, targets (root | sub-directory | explicit files | "
     "directory + outside files, where with --no-recursive files deeper below the directory count as outside). Three CLI runs (magic-numbers, nesting, file-placement) and, when recursive, Linter.lint "
     "per target; each observed file multiset must equal the model's. Non-trivial: a source file inside an "
     "always-excluded directory AND a look-alike name AND a pattern that matches some but not all files. Distinct = hash "
@@ -47,7 +47,7 @@ ASSUMPTIONS = [
     "cwd = project root, targets spelled as relative paths (path spelling is C09's subject)",
     "always-excluded names are the statement's list (.git node_modules __pycache__ .venv venv build dist *_cache *.egg-info); "
     ".tox/.eggs/htmlcov/.svn/.hg, which the code also excludes but the statement does not list, are not generated",
-    "one carrier per case: the statement does not say what happens when .thailintignore and the config list both exist",
+    "carrier 'both': .thailintignore and the config list exist together and each holds a share of the patterns; the model is the union (statement: a pattern 'from .thailintignore or the config's ignore list'); the same pattern is never put into both",
     "patterns only of the documented forms over [A-Za-z0-9_.] names; an exact-path pattern for a root-level file is only "
     "generated when its basename is unique in the tree (gitignore would also match it deeper; the docs call it a single file)",
     "explicit file targets are never covered by a directory target of the same run (whether a doubly named file reports twice is C10's "
@@ -164,7 +164,7 @@ def cases(draw):
                     pat = b[:pos] + "[" + b[pos] + alt + "]" + b[pos + 1:]
         if pat and pat not in patterns:
             patterns.append(pat)
-    carrier = draw(st.sampled_from(["file", "config"]))
+    carrier = draw(st.sampled_from(["file", "config", "both"]))
     recursive = draw(st.sampled_from([True, True, False]))
     tk = draw(st.sampled_from(["root", "root", "subdir", "files", "mixed"]))
     if tk in ("subdir", "mixed") and not live_dirs:
@@ -211,6 +211,12 @@ def build(case):
     if case["carrier"] == "config":
         if case["patterns"]:
             cfg["ignore"] = list(case["patterns"])
+    elif case["carrier"] == "both":
+        # both sources at once, each carrying its share of the patterns (the statement: "a repository ignore pattern from
+        # .thailintignore or the config's `ignore` list" - a file matching a pattern of either is not linted)
+        cfg["ignore"] = list(case["patterns"][1::2])
+        files[".thailintignore"] = "# generated ignore file\n\n" + "".join(p + "\n" for p in case["patterns"][0::2])
+        meta.append(".thailintignore")
     else:
         files[".thailintignore"] = "# generated ignore file\n\n" + "".join(p + "\n" for p in case["patterns"])
         meta.append(".thailintignore")
